@@ -231,4 +231,235 @@ theorem formatParam_strip (unres : Byte → Bool) (k v : Bytes) (hk : KeyGood k)
     rw [e]
     exact ⟨rstrip_snoc _ _ _ hz, by simp⟩
 
+
+/-! ### the element text -/
+
+/-- the parameters as `compose` appends them -/
+def tailText (unres : Byte → Bool) (ps : List (Bytes × Bytes)) : Bytes :=
+  ps.flatMap fun (k, v) => [0x3B, 0x20] ++ formatParam unres isTSpecial k v
+
+theorem tailText_even (unres : Byte → Bool) (ps : List (Bytes × Bytes)) (hk : ∀ p ∈ ps, KeyGood p.1) (hv : ∀ p ∈ ps, ValGood p.2) :
+    countByte q (tailText unres ps) % 2 = 0 := by
+  induction ps with
+  | nil => rfl
+  | cons p ps ih =>
+    obtain ⟨k, v⟩ := p
+    have h1 := formatParam_even unres k v (hk (k, v) (by simp)) (hv (k, v) (by simp))
+    have h2 := ih (fun x hx => hk x (by simp [hx])) (fun x hx => hv x (by simp [hx]))
+    have e : tailText unres ((k, v) :: ps) = [0x3B, 0x20] ++ (formatParam unres isTSpecial k v ++ tailText unres ps) := by
+      simp [tailText]
+    rw [e, countByte_append, countByte_append]
+    have : countByte q ([0x3B, 0x20] : Bytes) = 0 := by decide
+    omega
+
+/-- splitting the parameter tail at the semicolons outside quotes -/
+theorem split_tail (unres : Byte → Bool) (x : Bytes) (ps : List (Bytes × Bytes)) (hx : guardedB 0x3B x 0 = true)
+    (hk : ∀ p ∈ ps, KeyGood p.1) (hv : ∀ p ∈ ps, ValGood p.2) :
+    splitOutsideQuotes 0x3B (x ++ tailText unres ps) =
+      match ps with
+      | [] => splitOutsideQuotes 0x3B x
+      | _ :: _ => x :: ps.map fun p => 0x20 :: formatParam unres isTSpecial p.1 p.2 := by
+  induction ps generalizing x with
+  | nil => simp [tailText]
+  | cons p ps ih =>
+    obtain ⟨k, v⟩ := p
+    have hK := hk (k, v) (by simp)
+    have hV := hv (k, v) (by simp)
+    have hks : ∀ x ∈ ps, KeyGood x.1 := fun x hx => hk x (by simp [hx])
+    have hvs : ∀ x ∈ ps, ValGood x.2 := fun x hx => hv x (by simp [hx])
+    have heven := tailText_even unres ps hks hvs
+    have e : x ++ tailText unres ((k, v) :: ps) = x ++ 0x3B :: ((0x20 :: formatParam unres isTSpecial k v) ++ tailText unres ps) := by
+      simp [tailText]
+    have hrest_even : countByte q ((0x20 :: formatParam unres isTSpecial k v) ++ tailText unres ps) % 2 = 0 := by
+      rw [countByte_append, countByte_cons]
+      have h1 := formatParam_even unres k v hK hV
+      have h2 : ((0x20 : Byte) == q) = false := by decide
+      simp only [h2, Bool.false_eq_true, if_false, Nat.zero_add]
+      omega
+    have hxg : guardedB 0x3B x (countByte q ((0x20 :: formatParam unres isTSpecial k v) ++ tailText unres ps)) = true := by
+      -- guardedness only depends on the parity of what follows
+      have par : ∀ (y : Bytes) (t t' : Nat), t % 2 = t' % 2 → guardedB 0x3B y t = guardedB 0x3B y t' := by
+        intro y
+        induction y with
+        | nil => intro _ _ _; rfl
+        | cons a y ihy =>
+          intro t t' ht
+          simp only [guardedB, ihy t t' ht]
+          congr 1
+          split
+          · have : (countByte q y + t) % 2 = (countByte q y + t') % 2 := by omega
+            rw [this]
+          · rfl
+      rw [par x _ 0 (by omega)]; exact hx
+    rw [e, splitOutsideQuotes_append 0x3B (by decide) x _ hrest_even hxg]
+    have hfg : guardedB 0x3B (0x20 :: formatParam unres isTSpecial k v) 0 = true := by
+      simp only [guardedB]
+      simp [formatParam_guarded unres k v hK hV 0 rfl]
+    have := ih (0x20 :: formatParam unres isTSpecial k v) hfg hks hvs
+    rw [this]
+    cases ps with
+    | nil =>
+      simp only [List.map_nil, List.map_cons]
+      -- the last piece: no further separator outside quotes
+      have : splitOutsideQuotes 0x3B (0x20 :: formatParam unres isTSpecial k v) = [0x20 :: formatParam unres isTSpecial k v] := by
+        have h0 := splitOutsideQuotes_append 0x3B (by decide) (0x20 :: formatParam unres isTSpecial k v) [] (by decide) hfg
+        -- use the separator-free form instead: every `;` is guarded, so no split happens
+        have nosplit : ∀ (y : Bytes), guardedB 0x3B y 0 = true → splitOutsideQuotes 0x3B y = [y] := by
+          intro y
+          induction y with
+          | nil => intro _; rfl
+          | cons a y ihy =>
+            intro hg
+            simp only [guardedB, Bool.and_eq_true] at hg
+            have := ihy hg.2
+            simp only [splitOutsideQuotes, this]
+            have hns : (a == 0x3B && countByte 0x22 y % 2 == 0) = false := by
+              by_cases ha : (a == 0x3B) = true
+              · have hodd : (countByte q y + 0) % 2 = 1 := by simpa [ha] using hg.1
+                have : ¬ (countByte 0x22 y % 2 = 0) := by simp [q] at hodd; omega
+                simp [ha, this]
+              · simp [ha]
+            simp [hns]
+        exact nosplit _ hfg
+      rw [this]
+    | cons p2 ps2 => simp
+
+
+/-! ### the parameter loop -/
+
+theorem latin1ToUtf8_ascii (v : Bytes) (h : isAscii v = true) : latin1ToUtf8 v = v := by
+  induction v with
+  | nil => rfl
+  | cons a v ih =>
+    simp only [isAscii, List.all_cons, Bool.and_eq_true, decide_eq_true_eq] at h
+    have := ih (by simpa [isAscii] using h.2)
+    simp only [latin1ToUtf8, List.flatMap_cons, h.1, if_true] at this ⊢
+    rw [this]; rfl
+
+theorem go_params (unres : Byte → Bool) (ps : List (Bytes × Bytes)) (st : ParamsSt)
+    (hk : ∀ p ∈ ps, KeyGood p.1) (hv : ∀ p ∈ ps, ValGood p.2)
+    (hd : (ps.map (·.1)).Pairwise (· ≠ ·)) (hs : ∀ p ∈ ps, st.seen.contains p.1 = false) :
+    ∃ seen, parseParams.go isTSpecial defaultKey (ps.map fun p => formatParam unres isTSpecial p.1 p.2) st =
+      .ok { seen := seen, out := st.out ++ ps, conts := st.conts } := by
+  induction ps generalizing st with
+  | nil => exact ⟨st.seen, by simp [parseParams.go]⟩
+  | cons p ps ih =>
+    obtain ⟨k, v⟩ := p
+    have hK := hk (k, v) (by simp)
+    have hV := hv (k, v) (by simp)
+    simp only [List.map_cons, parseParams.go]
+    rw [param_roundtrip_partial unres k v hK.noeq hK.canon hV.ne hV.ascii hV.strip hV.noq hV.noadj]
+    have hseen : st.seen.contains k = false := hs (k, v) (by simp)
+    have hstep : paramStep st (k, v, v.any isTSpecial) =
+        .ok { seen := k :: st.seen, out := st.out ++ [(k, v)], conts := st.conts } := by
+      unfold paramStep
+      simp only [hseen, Bool.false_eq_true, if_false, hK.nostar, latin1ToUtf8_ascii v hV.ascii]
+    simp only [hstep]
+    simp only [List.map_cons, List.pairwise_cons] at hd
+    obtain ⟨seen, hgo⟩ := ih { seen := k :: st.seen, out := st.out ++ [(k, v)], conts := st.conts }
+      (fun x hx => hk x (by simp [hx])) (fun x hx => hv x (by simp [hx])) hd.2 (by
+        intro x hx
+        have hne : k ≠ x.1 := hd.1 x.1 (List.mem_map.mpr ⟨x, hx, rfl⟩)
+        have := hs x (by simp [hx])
+        simp only [List.contains_cons, Bool.or_eq_false_iff]
+        exact ⟨by simpa using fun e => hne e.symm, this⟩)
+    exact ⟨seen, by rw [hgo]; simp⟩
+
+theorem dictOf_distinct (l : List (Bytes × Bytes)) (hd : (l.map (·.1)).Pairwise (· ≠ ·)) : dictOf l = l := by
+  unfold dictOf
+  have : ∀ (l acc : List (Bytes × Bytes)), ((acc ++ l).map (·.1)).Pairwise (· ≠ ·) →
+      l.foldl (fun acc (x : Bytes × Bytes) => if acc.any (·.1 == x.1) then acc.map (fun e => if e.1 == x.1 then (x.1, x.2) else e) else acc ++ [(x.1, x.2)]) acc = acc ++ l := by
+    intro l
+    induction l with
+    | nil => intro acc _; simp
+    | cons x l ih =>
+      intro acc hp
+      simp only [List.foldl_cons]
+      have hnot : acc.any (·.1 == x.1) = false := by
+        rw [List.any_eq_false]
+        intro e he
+        simp only [List.map_append, List.map_cons, List.pairwise_append, List.pairwise_cons] at hp
+        have := hp.2.2 e.1 (List.mem_map.mpr ⟨e, he, rfl⟩) x.1 (by simp)
+        simpa using this
+      simp only [hnot, Bool.false_eq_true, if_false]
+      have := ih (acc ++ [(x.1, x.2)]) (by simpa [List.append_assoc] using hp)
+      rw [this]; simp
+  have h0 := this l [] (by simpa using hd)
+  simpa using h0
+
+
+/-! ### the whole element -/
+
+theorem utf8ToLatin1_ascii (v : Bytes) (h : isAscii v = true) : utf8ToLatin1 v = some v := by
+  induction v with
+  | nil => rfl
+  | cons a v ih =>
+    simp only [isAscii, List.all_cons, Bool.and_eq_true, decide_eq_true_eq] at h
+    have := ih (by simpa [isAscii] using h.2)
+    unfold utf8ToLatin1
+    simp [h.1, this]
+
+structure HeadGood (val : Bytes) : Prop where
+  ne : val ≠ []
+  ascii : isAscii val = true
+  strip : pyStrip val = val
+  nosemi : Clean 0x3B val
+
+theorem compose_eq (unres : Byte → Bool) (val : Bytes) (ps : List (Bytes × Bytes)) (hval : HeadGood val) :
+    compose unres { value := val, params := ps } = val ++ tailText unres ps := by
+  unfold compose encodeRfc2047 tailText
+  simp only [utf8ToLatin1_ascii val hval.ascii]
+
+/-- **an element with any number of parameters parses back**: value and parameter list, in order -/
+theorem parse_compose (unres : Byte → Bool) (val : Bytes) (ps : List (Bytes × Bytes)) (hval : HeadGood val)
+    (hk : ∀ p ∈ ps, KeyGood p.1) (hv : ∀ p ∈ ps, ValGood p.2) (hd : (ps.map (·.1)).Pairwise (· ≠ ·))
+    (h2047 : rfc2047Branch (compose unres { value := val, params := ps }) = false) :
+    parse (compose unres { value := val, params := ps }) = .ok { value := val, params := ps } := by
+  unfold parse
+  rw [h2047]
+  simp only [Bool.false_eq_true, if_false]
+  rw [compose_eq unres val ps hval]
+  have hvg : guardedB 0x3B val 0 = true := guardedB_clean _ _ _ hval.nosemi
+  have hve : val.isEmpty = false := by simpa using hval.ne
+  unfold parseParams
+  rw [split_tail unres val ps hvg hk hv]
+  cases ps with
+  | nil =>
+    have hsv : splitOutsideQuotes 0x3B val = [val] := by
+      have nosplit : ∀ (y : Bytes), Clean 0x3B y → splitOutsideQuotes 0x3B y = [y] := by
+        intro y
+        induction y with
+        | nil => intro _; rfl
+        | cons a y ihy =>
+          intro hc
+          have ha : (a == 0x3B) = false := by simpa using hc.head
+          simp [splitOutsideQuotes, ha, ihy hc.tail]
+      exact nosplit val hval.nosemi
+    simp only [hsv, List.map_cons, List.map_nil, hval.strip, List.filter_cons, hve, Bool.not_false, if_true, List.filter_nil,
+      List.isEmpty_cons, Bool.false_eq_true, if_false, parseParams.go, finishConts]
+    simp [dictOf, latin1ToUtf8_ascii val hval.ascii]
+  | cons p ps' =>
+    simp only []
+    -- atoms: the value and the formatted parameters
+    have hatoms : (((val :: ((p :: ps').map fun p => 0x20 :: formatParam unres isTSpecial p.1 p.2)).map pyStrip).filter
+        (fun x => !x.isEmpty)) = val :: ((p :: ps').map fun p => formatParam unres isTSpecial p.1 p.2) := by
+      have this : ∀ x ∈ (p :: ps'), (pyStrip ∘ fun p => 0x20 :: formatParam unres isTSpecial p.1 p.2) x = formatParam unres isTSpecial x.1 x.2 :=
+        fun x hx => (formatParam_strip unres x.1 x.2 (hk x hx) (hv x hx)).1
+      have hm : ((p :: ps').map (pyStrip ∘ fun p => 0x20 :: formatParam unres isTSpecial p.1 p.2)) =
+          (p :: ps').map fun p => formatParam unres isTSpecial p.1 p.2 := List.map_congr_left this
+      have hf : ((p :: ps').map fun p => formatParam unres isTSpecial p.1 p.2).filter (fun x => !x.isEmpty) =
+          (p :: ps').map fun p => formatParam unres isTSpecial p.1 p.2 := by
+        apply List.filter_eq_self.mpr
+        intro f hf
+        obtain ⟨x, hx, rfl⟩ := List.mem_map.mp hf
+        simp [(formatParam_strip unres x.1 x.2 (hk x hx) (hv x hx)).2]
+      rw [List.map_cons, hval.strip, List.filter_cons]
+      simp only [hve, Bool.not_false, if_true]
+      rw [List.map_map, hm, hf]
+    rw [hatoms]
+    simp only [List.isEmpty_cons, Bool.false_eq_true, if_false]
+    obtain ⟨seen, hgo⟩ := go_params unres (p :: ps') {} hk hv hd (fun _ _ => rfl)
+    rw [hgo]
+    simp only [finishConts, List.nil_append, List.append_nil, dictOf_distinct (p :: ps') hd, latin1ToUtf8_ascii val hval.ascii]
+
 end Httoop.Element
